@@ -450,6 +450,7 @@ func checkC18(w *World, r *Report) {
 	}
 	r.floor("mutating operations in render-reachable functions", nSinks, 50)
 	checkNoAliasesIntoData(w, r, reach)
+	checkContextValuesCopiedAsGiven(w, r)
 
 	// R18.1
 	n := 0
@@ -561,4 +562,60 @@ func checkNoAliasesIntoData(w *World, r *Report, reach map[*ssa.Function]bool) {
 	if bad == 0 {
 		r.ok("R18.3", "(package)", "no alias into the caller's data is created", "-", fmt.Sprintf("%d address-taking reflect calls, %d assertions of data values to foreign interfaces on render paths; all harmless", nA, nI), false)
 	}
+}
+
+// checkContextValuesCopiedAsGiven — R18.5: the render works on the caller's values, not on
+// conversions of them.  Where a function fills a render context's variable map from a map it was
+// handed (range over a map[string]interface{} parameter, store under the same key), the value
+// stored is the value read — not the result of a call on it.  "Normalising" typed slices to
+// []interface{} at that point changes what a value is for every filter after it: a []byte, a
+// net.IP or a named slice with a String method stops being text and prints as a list of numbers.
+func checkContextValuesCopiedAsGiven(w *World, r *Report) {
+	n := 0
+	for _, fn := range w.pkgFuncs() {
+		instrsOf(fn, func(in ssa.Instruction) {
+			mu, ok := in.(*ssa.MapUpdate)
+			if !ok {
+				return
+			}
+			if _, ok := fieldLoad(mu.Map, "RenderContext", "context"); !ok {
+				return
+			}
+			// key: the key of a range over a map parameter
+			kx, ok := unspill(mu.Key).(*ssa.Extract)
+			if !ok {
+				return
+			}
+			nx, ok := kx.Tuple.(*ssa.Next)
+			if !ok {
+				return
+			}
+			rg, ok := nx.Iter.(*ssa.Range)
+			if !ok {
+				return
+			}
+			isParamMap := false
+			for _, o := range originChain(rg.X) {
+				if p, ok := o.(*ssa.Parameter); ok {
+					if m, ok := p.Type().Underlying().(*types.Map); ok {
+						if it, ok := m.Elem().Underlying().(*types.Interface); ok && it.NumMethods() == 0 {
+							isParamMap = true
+						}
+					}
+				}
+			}
+			if !isParamMap {
+				return
+			}
+			n++
+			construct := "value copied from the caller's map as it is"
+			v := unspill(mu.Value)
+			if vx, ok := v.(*ssa.Extract); ok && vx.Tuple == ssa.Value(nx) {
+				r.ok("R18.5", ssaName(fn), construct, w.posOf(in.Pos()), "the value read by the range is the value stored", true)
+				return
+			}
+			r.bad("R18.5", ssaName(fn), construct, w.posOf(in.Pos()), "the value stored in the context is computed from the caller's value ("+v.String()+") instead of being that value: every filter and test then sees another kind of value than the caller passed — a typed slice with its own text form reaches escape as a list")
+		})
+	}
+	r.floor("copies of a caller's map into a render context", n, 1)
 }
